@@ -360,6 +360,10 @@ impl<H: HashFunction, T: Term> C14nState<'_, H, T> {
                     self.permutation_limit,
                 )));
             }
+            // the specification does not say in which order permutations are visited, and keeps the
+            // first of several equal paths; start from the sorted list (as the reference implementation does)
+            // rather than from the iteration order of the dataset, so that the result is reproducible
+            blank_node.sort_unstable();
             for_each_permutation_of(&mut blank_node, |p| -> Result<(), C14nError<_>> {
                 let mut issuer_copy = ret_issuer.as_ref().unwrap_or(issuer).clone();
                 let mut path = String::new();
